@@ -272,6 +272,7 @@ class Recorder:
             "paths": self.paths,
             "solver_s": round(self.solver_s, 2),
             "vacuity_witnesses": self.vacuity[:40],
+            "slowest_obligations": [[o["solver_s"], o["name"][:120]] for o in sorted(self.obligs, key=lambda o: -o["solver_s"])[:8]],
             "known_findings_matched": n_known,
             "new_violations": [v["signature"] for v, _ in new_viol],
             "harness_errors": self.harness_errors[:20],
